@@ -449,7 +449,8 @@ def slotRange (cfg : Cfg) (ty : Ty) (items : List Item) (sl : Slot) (cur : Nat) 
   | _, _ => none
 
 structure VSt where
-  spos : Option Nat        -- static offset of the stream relative to the structure start, if known
+  spos : Option Nat        -- static offset of the stream relative to the structure start, if known (an alignment
+                           -- statement pads on the absolute position: unknown afterwards, until the next seek)
   lastAlign : Option Nat   -- the alignment applied since the last read (dynamic position)
   unit : Option (Scalar × Nat)  -- the bit reader's unit: storage scalar, free bits
   dirty : Bool             -- a bit run is open (no `bit_reader.reset()` since the last bit read)
@@ -462,6 +463,13 @@ def posOK (al : Bool) (st : VSt) (fo : Option Nat) (fa : Nat) : Bool :=
   | none =>
     if al then (st.lastAlign == some fa) || (st.lastAlign.isNone && fa == 1)
     else st.lastAlign.isNone
+
+/-- does reading a value of the type run a structure's (or union's) own `_read`?  An aligned structure pads on the
+    absolute position of the stream, so the bytes it consumes are not determined by its declared size -/
+def readsStruct : Ty → Bool
+  | .struct .. | .union .. => true
+  | .arr e _ => readsStruct e
+  | _ => false
 
 /-- the layout offset of the field under the cursor -/
 def hdOff : List (Option Nat) → Option Nat
@@ -563,21 +571,22 @@ def planOKAux (cfg : Cfg) (al : Bool) (salign : Nat) : Plan → Fields → List 
       (if nextStatic fs' offs' then planOKAux cfg al salign is fs' offs' { st with spos := some o, lastAlign := none }
        else if st.spos == some o then planOKAux cfg al salign is fs' offs' st
        else false)
-    | none => false
+    | none =>
+      -- a void field under the cursor that the stream is not known to be at (its offset is static, the position of
+      -- the stream is not known): it has a layout offset, so the interpreted reader seeks for it whatever its position
+      -- is; the void fields stay under the cursor and have to be passed at the new position
+      nextStatic fs offs && planOKAux cfg al salign is fs offs { st with spos := some o, lastAlign := none }
   | .align a :: is, fs, offs, st =>
     match dropVoids cfg al fs offs st.spos with
     | none => false
     | some (fs', offs', skipped) =>
       if st.lastAlign.isSome ∨ a = 0 ∨ (skipped && st.dirty) then false else
       if a = 1 then planOKAux cfg al salign is fs' offs' st else
-      -- only aligned structures have alignment statements (a packed structure may start anywhere)
+      -- only aligned structures have alignment statements (a packed structure may start anywhere).
+      -- The statement pads on the absolute position of the stream and the structure may start anywhere: the offset
+      -- relative to the structure start is not known statically afterwards (until the next seek)
       if !al then false else
-      match st.spos with
-      | some k =>
-        if salign % a = 0 ∧ isPow2b a then
-          planOKAux cfg al salign is fs' offs' { st with spos := some (k + padNat k a), lastAlign := some a }
-        else false
-      | none => planOKAux cfg al salign is fs' offs' { st with lastAlign := some a }
+      planOKAux cfg al salign is fs' offs' { st with spos := none, lastAlign := some a }
   | .bitsReset :: is, fs, offs, st =>
     -- the interpreted reader drops its bit buffer when it reads a field that is not a bit field: a reset in front of a
     -- bit field would make the compiled reader load a unit the interpreted reader still has
@@ -588,7 +597,11 @@ def planOKAux (cfg : Cfg) (al : Bool) (salign : Nat) : Plan → Fields → List 
       let fo : Option Nat := hdOff offs'
       name == nm && !st.dirty && posOK al st fo (ty.alignment cfg) &&
       planOKAux cfg al salign is rest (offs'.drop 1)
-        { spos := (match fo, st.spos, ty.size cfg with | some _, some k, some z => some (k + z) | _, _, _ => none),
+        -- the position after the member is known for a member with a layout offset and a static size that contains no
+        -- structure (scalars and arrays of them consume exactly their size; a nested structure need not)
+        { spos := (match fo, st.spos, ty.size cfg with
+            | some _, some k, some z => if readsStruct ty then none else some (k + z)
+            | _, _, _ => none),
           lastAlign := none, unit := none, dirty := false }
     | _ => false
   | .bits nm n via :: is, fs, offs, st =>
